@@ -99,6 +99,37 @@ Proof.
     split; [exact X|]. split; [exact C|]. discriminate.
 Qed.
 
+(** the floor of the soft stop is counted from the slab itself ([listen_slots],
+    the protocol set through C10/Gen.v).  soft_stop_exits_clean: for EVERY slab,
+    when a turn answers, every entry left open is a permanent slot (listener,
+    channel, metrics, timer): no client session is abandoned.
+    soft_stop_completes: for EVERY slab whose client sessions can all be closed,
+    the turn answers at once — the worker does not wait for ever (what a floor
+    that drifts from the slab did before 0e7d818).  permanent_slots_exact: the
+    permanent set is exactly the complement of the client protocols among the
+    variants of [enum Protocol] — dropping Timer, or adding HTTP, fails here. *)
+Theorem soft_stop_exits_clean :
+  forall sl id ans s', slab_turn sl id ans = (s', true) ->
+    answers s' = ans ++ [id] /\ stopping s' = None /\
+    forall e, In e sl -> snd e = false -> is_permanent e = true.
+Proof. exact slab_turn_answered. Qed.
+
+Theorem soft_stop_completes :
+  forall sl id ans, (forall e, In e sl -> is_permanent e = false -> snd e = true) ->
+    exists s', slab_turn sl id ans = (s', true).
+Proof. exact slab_turn_completes. Qed.
+
+Theorem permanent_slots_exact :
+  forall p, p < protocol_count ->
+    existsb (Nat.eqb p) permanent_protocols = negb (existsb (Nat.eqb p) client_protocols).
+Proof. exact protocols_split. Qed.
+
+Example soft_stop_floor_nonvacuous :
+  (* three listeners, channel, metrics, timer, one HTTP session still busy, one TCP session closable *)
+  snd (slab_turn [(4, false); (5, false); (6, false); (8, false); (9, false); (10, false); (0, false); (2, true)] 7 []) = false /\
+  snd (slab_turn [(4, false); (5, false); (6, false); (8, false); (9, false); (10, false); (0, true); (2, true)] 7 []) = true.
+Proof. vm_compute. split; reflexivity. Qed.
+
 (** ties of the model's steps to the order of the calls in the source
     (translator -> C10/Gen.v): interpreting [Server::return_listen_sockets] call
     by call (take the listeners out of the four proxies, build the manifest from
